@@ -6,7 +6,7 @@
 From Hive.Base Require Import Prelude.
 From Hive.Model Require Import Types KernelBase SimOps States Step.
 From Hive.Gen Require Import Kernels.
-From Hive.Proofs Require Import SimFacts Reach VehFrame Atomic Trip Macro Sorted Queue Count CountInv.
+From Hive.Proofs Require Import SimFacts Reach VehFrame Atomic Trip Macro Sorted Queue Count CountInv Guards DispInv PlaceInv.
 From Coq Require Import Sorting.Permutation.
 Local Open Scope Z_scope.
 
@@ -171,4 +171,99 @@ Proof.
     unfold vstate_of, find. rewrite V. cbn [v_id veh_send_payment set]. cbn. rewrite mech_add_energy_id, Hid, PM.gss. cbn.
     rewrite mech_add_energy_keeps_state. rewrite Est. reflexivity.
 Qed.
+
+(* ---------- the head of the queue is served: its update cannot be refused when a plug of its type is free ---------- *)
+Section Total.
+Hypothesis fence_ok : forall g, e_fence env g = true.
+
+Lemma modify_station_total s x old : find (s_id x) (stations s) = Some old -> s_geoid old = s_geoid x -> exists s', modify_station env s x = Ok s'.
+Proof. intros F G. unfold modify_station. rewrite F, G, Pos.eqb_refl, fence_ok. cbn. eauto. Qed.
+Lemma modify_vehicle_total s w old : find (v_id w) (vehicles s) = Some old -> exists s', modify_vehicle env s w = Ok s'.
+Proof.
+  intro F. unfold modify_vehicle. rewrite F, fence_ok. cbn.
+  destruct (update_entity_dicts v_geoid v_id (e_parent env) old w (vehicles s) (v_loc s) (v_search s)) as [[a b] c]. eauto.
+Qed.
+Lemma valid_charger_etype m c : mech_valid_charger m c = true -> etype_eqb (c_etype c) (mech_etype m) = true.
+Proof. unfold mech_valid_charger, mech_etype, bev_valid_charger, ice_valid_charger. destruct (m_kind m); auto. Qed.
+
+(* can_use: the vehicle's powertrain is known and accepts the plug type it queues for *)
+Definition can_use (s : Sim) (v : Vehicle) (qs qc : id) : Prop :=
+  exists m, e_mech env (v_mech v) = Some m /\
+    forall stn c, find qs (stations s) = Some stn -> get_charger_instance stn qc = Ok c -> mech_valid_charger m c = true.
+
+Theorem offered_plug_is_taken s vid v qs qc t : vkeys s -> Inv_counts s -> Inv_place s ->
+  find vid (vehicles s) = Some v -> v_state v = ChargeQueueing qs qc t -> can_use s v qs qc ->
+  terminal env vid (ChargeQueueing qs qc t) s = true ->
+  exists s', vs_update env vid (ChargeQueueing qs qc t) s = Ok s'.
+Proof.
+  intros K IC IP Fv Est (m & Em & Use) Tm. pose proof IC as (SK & _ & CS & _). destruct IP as (_ & _ & PL).
+  assert (Hid : v_id v = vid) by (apply K; exact Fv).
+  pose proof (PL _ _ Fv) as P. unfold placed in P. rewrite Est in P. destruct P as (stn & Fs & Geo & Acc).
+  assert (Hsid : s_id stn = qs) by (apply SK; exact Fs).
+  cbn in Tm. rewrite Fs in Tm. unfold has_available_charger in Tm. destruct (find qc (s_state stn)) as [cs|] eqn:Fc; [|discriminate].
+  assert (L : slook (stations s) qs qc = Some cs) by (unfold slook; rewrite Fs; exact Fc).
+  destruct (CS _ _ _ L) as (A0 & _ & Q).
+  assert (Enq : 1 <= cs_enq cs).
+  { rewrite Q. pose proof (cnt_add (queues qs qc) vid v (vehicles s)) as CA. unfold find in Fv. rewrite Fv in CA.
+    assert (Same : PM.add vid v (vehicles s) = vehicles s).
+    { clear -Fv. revert Fv. generalize (vehicles s). induction vid as [k IH|k IH|]; intros [|l o r] F; cbn in *; try discriminate; try (rewrite IH by exact F; reflexivity). inversion F. reflexivity. }
+    rewrite Same in CA. assert (Qv : queues qs qc v = true) by (unfold queues; rewrite Est; cbn; rewrite !Pos.eqb_refl; reflexivity).
+    pose proof (cnt_add (queues qs qc) vid (v <| v_state := OutOfService |>) (vehicles s)) as CB. rewrite Fv in CB. unfold b2z in *. rewrite Qv in *. cbn in CB.
+    pose proof (cnt_nonneg (queues qs qc) (PM.add vid (v <| v_state := OutOfService |>) (vehicles s))). lia. }
+  unfold vs_update. cbn [terminal]. rewrite Fs. unfold has_available_charger. rewrite Fc, Tm.
+  cbn [default_terminal_state]. rewrite Fv, Fs. unfold has_available_charger. rewrite Fc, Tm. cbn [negb].
+  (* exit: leave the queue *)
+  assert (X : exists s1, vs_exit env (vid, ChargeQueueing qs qc t) (vid, ChargingStation qs qc) s = Ok s1 /\ vehicles s1 = vehicles s /\
+              stations s1 = PM.add qs (stn <| s_state := PM.add qc (cs <| cs_enq := cs_enq cs - 1 |>) (s_state stn) |>) (stations s)).
+  { cbn. unfold exit_charge_queueing. rewrite Fs. unfold dequeue_for_charger, station_state_update. rewrite Fc. unfold cs_decrement_enqueued.
+    destruct (Z.eqb_spec (cs_enq cs) 0) as [Z0|_]; [lia|].
+    destruct (modify_station_total s (stn <| s_state := PM.add qc (cs <| cs_enq := cs_enq cs - 1 |>) (s_state stn) |>) stn) as [s1 M]; [cbn; rewrite Hsid; exact Fs|reflexivity|].
+    rewrite M. exists s1. split; [reflexivity|]. apply modify_station_spec in M. cbn in M. rewrite Hsid in M. intuition. }
+  destruct X as (s1 & X & V1 & S1).
+  set (stn1 := stn <| s_state := PM.add qc (cs <| cs_enq := cs_enq cs - 1 |>) (s_state stn) |>) in *.
+  assert (Fs1 : find qs (stations s1) = Some stn1) by (unfold find; rewrite S1; apply PM.gss).
+  assert (Fc1 : find qc (s_state stn1) = Some (cs <| cs_enq := cs_enq cs - 1 |>)) by (unfold stn1, find; cbn; apply PM.gss).
+  assert (Fv1 : find vid (vehicles s1) = Some v) by (rewrite V1; exact Fv).
+  (* enter: take the plug *)
+  assert (N : exists s2 v2, vs_enter env (vid, ChargingStation qs qc) s1 = Ok s2 /\ find vid (vehicles s2) = Some v2 /\ v_state v2 = ChargingStation qs qc /\
+              v_mech v2 = v_mech v /\ v_id v2 = vid /\ v_energy v2 = v_energy v /\
+              exists stn2, find qs (stations s2) = Some stn2 /\ s_id stn2 = qs /\ s_geoid stn2 = s_geoid stn /\ get_charger_instance stn2 qc = Ok (cs_charger cs)).
+  { cbn. unfold enter_charging_station. rewrite Fv1, Fs1, Em.
+    assert (G1 : s_geoid stn1 = s_geoid stn) by reflexivity. rewrite G1, Geo, Pos.eqb_refl. cbn [negb].
+    assert (M1 : s_mem stn1 = s_mem stn) by reflexivity. rewrite M1. unfold grants in Acc. rewrite Acc. cbn [negb].
+    unfold get_charger_instance at 1. rewrite Fc1. cbn [cs_charger set].
+    assert (Uc : mech_valid_charger m (cs_charger cs) = true) by (apply (Use stn); [exact Fs|unfold get_charger_instance; rewrite Fc; reflexivity]).
+    rewrite Uc. cbn [negb]. unfold rbind, checkout_charger, station_state_optional_update. rewrite Fc1.
+    assert (Hav : cs_has_available_charger (cs <| cs_enq := cs_enq cs - 1 |>) = true) by exact Tm. rewrite Hav. cbn [negb].
+    unfold cs_decrement_available. assert (Av : 0 < cs_avail cs) by (apply Z.ltb_lt; exact Tm).
+    cbn [cs_avail set]. destruct (Z.eqb_spec (cs_avail cs) 0) as [Z0|_]; [lia|].
+    set (cs2 := set cs_avail (fun _ => cs_avail cs - 1) (cs <| cs_enq := cs_enq cs - 1 |>)).
+    set (stn2 := stn1 <| s_state := PM.add qc cs2 (s_state stn1) |>).
+    destruct (modify_station_total s1 stn2 stn1) as [sa Ma]; [cbn; rewrite Hsid; exact Fs1|reflexivity|].
+    rewrite Ma. pose proof (modify_station_spec env _ _ _ Ma) as (_ & Sa & Va & _). cbn in Sa. rewrite Hsid in Sa.
+    unfold apply_new_vehicle_state. rewrite Va, Fv1.
+    destruct (modify_vehicle_total sa (v <| v_state := ChargingStation qs qc |>) v) as [s2 Mv]; [cbn; rewrite Hid, Va; exact Fv1|].
+    rewrite Mv. exists s2, (v <| v_state := ChargingStation qs qc |>). split; [reflexivity|].
+    pose proof (modify_vehicle_spec env _ _ _ Mv) as (_ & V2 & S2 & _). cbn in V2. rewrite Hid in V2.
+    split; [unfold find; rewrite V2; apply PM.gss|]. repeat (split; [reflexivity || exact Hid|]).
+    exists stn2. split; [unfold find; rewrite S2, Sa; apply PM.gss|]. split; [exact Hsid|]. split; [reflexivity|].
+    unfold get_charger_instance, stn2, find. cbn. rewrite PM.gss. reflexivity. }
+  destruct N as (s2 & v2 & N & Fv2 & St2 & Mech2 & Id2 & En2 & stn2 & Fs2 & Hs2 & G2 & Ch2).
+  assert (T : transition env s (vid, ChargeQueueing qs qc t) (vid, ChargingStation qs qc) = Ok s2) by (apply transition_ok_iff; eauto).
+  rewrite T, Fv2, St2. cbn [perform_update]. unfold charge_unless_full. rewrite Fv2, Mech2, Em.
+  destruct (mech_is_full m v2) eqn:Full; [eauto|].
+  (* the first charge step *)
+  unfold charge. rewrite Fs2, Fv2, Mech2, Em, Ch2, Full.
+  rewrite (valid_charger_etype m (cs_charger cs)) by (apply (Use stn); [exact Fs|unfold get_charger_instance; rewrite Fc; reflexivity]). cbn [negb].
+  destruct (mech_add_energy m v2 (cs_charger cs) (dt s2)) as [charged tsec] eqn:Add.
+  match goal with |- exists s', match modify_vehicle env s2 ?w with _ => _ end = Ok s' =>
+    assert (Hw : v_id w = vid) by (cbn; pose proof (mech_add_energy_id m v2 (cs_charger cs) (dt s2)) as Ei; rewrite Add in Ei; cbn in Ei; congruence);
+    destruct (modify_vehicle_total s2 w v2) as [s3 M3]; [rewrite Hw; exact Fv2|]; rewrite M3 end.
+  pose proof (modify_vehicle_spec env _ _ _ M3) as (_ & _ & S3 & _).
+  match goal with |- exists s', modify_station env ?sx ?x = Ok s' => destruct (modify_station_total sx x stn2) as [s4 M4] end.
+  - cbn [emit stations set]. rewrite S3. destruct (c_etype (cs_charger cs)); cbn; rewrite Hs2; exact Fs2.
+  - destruct (c_etype (cs_charger cs)); reflexivity.
+  - eauto.
+Qed.
+End Total.
 End Q.
